@@ -227,7 +227,7 @@ func (g *rig) step(op sm.Op, trace *[]string) bool {
 	*trace = append(*trace, fmt.Sprintf("%v -> %s %s", op, resClass(res), vk.JSON(res.Msg)))
 	replay := map[string]any{"resource": kind, "config": g.model.Cfg, "trace": *trace}
 	if panicked {
-		r.Violation(fmt.Sprintf("C01/panic/%s/%s", op.Kind, op.Opts.Class()), "panic in "+op.String()+": "+what+"\n"+strings.Join(*trace, "\n"), replay)
+		r.Violation(fmt.Sprintf("C01/panic/%s/%s", op.Kind, op.Opts.Reduced()), "panic in "+op.String()+": "+what+"\n"+strings.Join(*trace, "\n"), replay)
 		return false
 	}
 	v, next := g.model.Apply(g.state, op, res)
@@ -237,7 +237,7 @@ func (g *rig) step(op sm.Op, trace *[]string) bool {
 	r.Count("outcome:"+resClass(res), 1)
 	ok := true
 	if !v.OK {
-		r.Violation(fmt.Sprintf("C01/%s/%s/%s/%s", v.Clause, kind, op.Kind, op.Opts.Class()), v.Why+"\ntrace:\n"+strings.Join(*trace, "\n"), replay)
+		r.Violation(fmt.Sprintf("C01/%s/%s/%s/%s", v.Clause, kind, op.Kind, op.Opts.Reduced()), v.Why+"\ntrace:\n"+strings.Join(*trace, "\n"), replay)
 		ok = false
 	}
 	isWrite := op.Kind != sm.Get && op.Kind != sm.List
@@ -308,7 +308,7 @@ func (g *rig) step(op sm.Op, trace *[]string) bool {
 		r.Violation(fmt.Sprintf("C01/event-after-failure/%s/%s/%s", kind, op.Kind, resClass(res)), fmt.Sprintf("%v failed with %v but %d event(s) were published\ntrace:\n%s", op, res.Code, len(evs), strings.Join(*trace, "\n")), replay)
 		ok = false
 	} else if v.OK && len(evs) != wantN {
-		r.Violation(fmt.Sprintf("C01/event-count/%s/%s/%s", kind, op.Kind, op.Opts.Class()), fmt.Sprintf("%v published %d events, model says %d\ntrace:\n%s", op, len(evs), wantN, strings.Join(*trace, "\n")), replay)
+		r.Violation(fmt.Sprintf("C01/event-count/%s/%s/%s", kind, op.Kind, op.Opts.Reduced()), fmt.Sprintf("%v published %d events, model says %d\ntrace:\n%s", op, len(evs), wantN, strings.Join(*trace, "\n")), replay)
 		ok = false
 	} else if v.OK && wantN == 1 {
 		e := evs[0]
@@ -332,7 +332,7 @@ func (g *rig) step(op sm.Op, trace *[]string) bool {
 			bad = fmt.Sprintf("change time %v, want the write time %v", e.t.UnixNano(), we.Time.UnixNano())
 		}
 		if bad != "" {
-			r.Violation(fmt.Sprintf("C01/event-content/%s/%s/%s", kind, op.Kind, op.Opts.Class()), fmt.Sprintf("%v published an event with %s\ntrace:\n%s", op, bad, strings.Join(*trace, "\n")), replay)
+			r.Violation(fmt.Sprintf("C01/event-content/%s/%s/%s", kind, op.Kind, op.Opts.Reduced()), fmt.Sprintf("%v published an event with %s\ntrace:\n%s", op, bad, strings.Join(*trace, "\n")), replay)
 			ok = false
 		}
 	}
